@@ -25,6 +25,8 @@ inductive Value where
   | uint (n : Nat)
   /-- the number `q / 4` -/
   | flt (q : Int)
+  /-- a float that is not a number: 0 = NaN, 1 = +Inf, anything else = -Inf -/
+  | fspec (k : Nat)
   | str (s : String)
   /-- msgpack timestamp, Unix seconds -/
   | time (sec : Int)
@@ -45,6 +47,8 @@ inductive Key where
   | i (v : Int)
   | u (v : Nat)
   | f (q : Int)
+  /-- NaN / +Inf / -Inf (as `Value.fspec`) -/
+  | fs (k : Nat)
   | s (v : String)
   deriving DecidableEq, Repr, Inhabited
 
@@ -55,6 +59,7 @@ def canon : Value → Key
   | .int i => .i i
   | .uint n => .u n
   | .flt q => .f q
+  | .fspec k => .fs k
   | .str s => .s s
   | .time sec => .i sec
   | .arr _ => .null
@@ -68,6 +73,8 @@ def keyEq : Key → Key → Bool
   | .i x, .i y => x == y
   | .u x, .u y => x == y
   | .f x, .f y => x == y
+  -- NaN equals nothing, not even itself; an infinity equals only the same infinity
+  | .fs x, .fs y => x != 0 && y != 0 && (x == 1) == (y == 1)
   | .s x, .s y => x == y
   | .i x, .u y => decide (0 ≤ x) && x == (y : Int)
   | .u x, .i y => decide (0 ≤ y) && y == (x : Int)
@@ -153,27 +160,51 @@ def extractG (cur : Value) : Path → Ext
 /-! ### the scan route's conversions -/
 
 def maxInt64 : Int := 9223372036854775807
+def minInt64 : Int := -9223372036854775808
 
-/-- `toInt64`: floats are truncated, times become Unix seconds -/
+/-- `float64(n)` for a natural number: round to 53 significant bits, ties to even -/
+def roundNat (n : Nat) : Nat :=
+  if n < 9007199254740992 then n else
+  let e := Nat.log2 n - 52
+  let m := n >>> e
+  let rem := n % (2 ^ e)
+  let half := 2 ^ (e - 1)
+  let m' := if rem > half || (rem == half && m % 2 == 1) then m + 1 else m
+  m' <<< e
+
+/-- `float64(i)` -/
+def roundInt (i : Int) : Int := if 0 ≤ i then (roundNat i.toNat : Int) else -((roundNat (-i).toNat : Nat) : Int)
+
+/-- `toInt64`: floats are truncated (NaN and the infinities give MinInt64 on amd64), times become
+    Unix seconds -/
 def toInt64 : Value → Option Int
   | .int i => some i
   | .uint n => if (n : Int) ≤ maxInt64 then some n else none
   | .flt q => some (Int.tdiv q 4)
+  | .fspec _ => some minInt64
   | .time s => some s
   | _ => none
 
-/-- `toUint64` (negative floats are outside the model) -/
+/-- `toUint64` (a negative float converts through int64; NaN and the infinities give 2^63 on amd64) -/
 def toUint64 : Value → Option Nat
   | .uint n => some n
   | .int i => if 0 ≤ i then some i.toNat else none
-  | .flt q => if 0 ≤ q then some (Int.tdiv q 4).toNat else none
+  | .flt q => if 0 ≤ q then some (Int.tdiv q 4).toNat else some (18446744073709551616 + Int.tdiv q 4).toNat
+  | .fspec _ => some 9223372036854775808
   | _ => none
 
-/-- `toFloat64`, in quarters -/
-def toFloat64 : Value → Option Int
-  | .flt q => some q
-  | .int i => some (4 * i)
-  | .uint n => some (4 * (n : Int))
+/-- a float64: a finite number in quarters, or NaN / +Inf / -Inf -/
+inductive FV where
+  | fin (q : Int)
+  | spec (k : Nat)
+  deriving DecidableEq, Repr
+
+/-- `toFloat64` (integers are rounded to float64) -/
+def toFloat64 : Value → Option FV
+  | .flt q => some (.fin q)
+  | .fspec k => some (.spec k)
+  | .int i => some (.fin (4 * roundInt i))
+  | .uint n => some (.fin (4 * (roundNat n : Int)))
   | _ => none
 
 end Hv.Query
